@@ -8,7 +8,7 @@
 //!    filesystem failure of the first shift / of the final move when count = 1).
 //!  * crash: at the k-th step boundary of the n-th attempt the directory is copied (crash image);
 //!    the rest of the history runs on the image with a FRESH appender.
-use crate::c07::{compress_for, quiet_stdout, scratch_dir, snapshot, write_file};
+use crate::c07::{compress_for, n_threads, quiet_stdout, scratch_dir, snapshot, snapshot_canon, wait_quiescent, write_file};
 use crate::proto::*;
 use crate::rng::Rng;
 use log4rs::append::rolling_file::policy::compound::{
@@ -68,6 +68,8 @@ enum Op {
     Restart,
     Obstacle,
     Unobstacle,
+    /// background rotation only: wait until no rotation thread is left, then snapshot
+    Quiesce,
 }
 
 struct Setup {
@@ -107,7 +109,9 @@ fn parse_pairs(s: &str) -> Option<Vec<(usize, usize)>> {
 }
 
 pub fn exec(fields: &[&str]) -> String {
-    if fields.len() != 10 {
+    // `… @bg`: the case is executed by the harness built with `background_rotation`
+    let bg = fields.len() == 11 && fields[10] == "@bg";
+    if fields.len() != 10 && !bg {
         return "bad-case".to_owned();
     }
     let setup = match (
@@ -138,6 +142,7 @@ pub fn exec(fields: &[&str]) -> String {
             ["r"] => ops.push(Op::Restart),
             ["o"] => ops.push(Op::Obstacle),
             ["u"] => ops.push(Op::Unobstacle),
+            ["q"] => ops.push(Op::Quiesce),
             ["a", b, t] => match (dec_bytes(b).and_then(|b| String::from_utf8(b).ok()), *t) {
                 (Some(s), "0") => ops.push(Op::Append(s, false)),
                 (Some(s), "1") => ops.push(Op::Append(s, true)),
@@ -159,6 +164,9 @@ pub fn exec(fields: &[&str]) -> String {
         }
     };
 
+    if bg {
+        return exec_bg(&setup, &init, &ops, &faults, crash);
+    }
     let mut root = scratch_dir("c08");
     let image = scratch_dir("c08img");
     for (p, b) in &init {
@@ -258,6 +266,7 @@ pub fn exec(fields: &[&str]) -> String {
                 }
                 out.push(format!("u|-|{}", snapshot(&root)));
             }
+            Op::Quiesce => out.push(format!("q|-|{}", snapshot(&root))),
             Op::Append(msg, ans) => {
                 answer.store(*ans, Ordering::SeqCst);
                 let mut crash_here: Option<usize> = None;
@@ -352,6 +361,136 @@ pub fn exec(fields: &[&str]) -> String {
     enc_list("/", &out)
 }
 
+/// Background rotation (`@bg`): appends go on while the rotation thread archives the renamed file.
+/// Per append only the result is observed; `q` waits for quiescence and snapshots (temp names
+/// canonicalised). The hook runs in the rotation thread: it recognises the start of a rotation by
+/// its first argument, sleeps a little (overlap), injects the fault of the (rotation, step), or
+/// copies the directory (crash image) and aborts. A crash is only offered for post-process
+/// triggers: the harness then waits right after that append, so the image is deterministic.
+fn exec_bg(
+    setup: &Setup,
+    init: &[(String, Vec<u8>)],
+    ops: &[Op],
+    faults: &[(usize, usize)],
+    crash: Option<(usize, usize)>,
+) -> String {
+    struct BgHook {
+        root: PathBuf,
+        image: PathBuf,
+        rot: isize,
+        step: usize,
+        crashed: bool,
+    }
+    let mut root = scratch_dir("c08bg");
+    let image = scratch_dir("c08bgimg");
+    for (p, b) in init {
+        if write_file(&root, p, &compress_for(p, b)).is_err() {
+            let _ = std::fs::remove_dir_all(&root);
+            let _ = std::fs::remove_dir_all(&image);
+            return "bad-case".to_owned();
+        }
+    }
+    let first_arg: u32 = if setup.count >= 2 { setup.base + setup.count - 2 } else { u32::MAX };
+    let hook = Arc::new(Mutex::new(BgHook { root: root.clone(), image: image.clone(), rot: -1, step: 0, crashed: false }));
+    {
+        let h = hook.clone();
+        let faults: Vec<(usize, usize)> = faults.to_vec();
+        log4rs::verif_hooks::set_rotate_point(Some(Arc::new(move |i: u32| {
+            std::thread::sleep(std::time::Duration::from_micros(400));
+            let mut h = h.lock().unwrap();
+            if i == first_arg {
+                h.rot += 1;
+                h.step = 0;
+            }
+            let (n, k) = (h.rot as usize, h.step);
+            h.step += 1;
+            if crash == Some((n, k)) && !h.crashed {
+                copy_dir(&h.root.clone(), &h.image.clone());
+                h.crashed = true;
+                return Err(std::io::Error::new(std::io::ErrorKind::Other, "crash"));
+            }
+            if faults.contains(&(n, k)) {
+                return Err(std::io::Error::new(std::io::ErrorKind::Other, "injected fault"));
+            }
+            Ok(())
+        })));
+    }
+    let baseline = n_threads();
+    let answer = Arc::new(AtomicBool::new(false));
+    let out = quiet_stdout(|| {
+        let mut out: Vec<String> = vec![];
+        let mut attempts = 0usize;
+        let start = |root: &Path, out: &mut Vec<String>| -> Option<RollingFileAppender> {
+            match guarded(std::panic::AssertUnwindSafe(|| build(root, setup, &answer))) {
+                Ok(Ok(a)) => {
+                    out.push(format!("rs:ok|-|{}", snapshot_canon(root, &setup.file)));
+                    Some(a)
+                }
+                _ => {
+                    out.push(format!("rs:err|-|{}", snapshot_canon(root, &setup.file)));
+                    None
+                }
+            }
+        };
+        let mut appender = start(&root, &mut out);
+        for op in ops {
+            match op {
+                Op::Restart => {
+                    wait_quiescent(baseline);
+                    drop(appender.take());
+                    appender = start(&root, &mut out);
+                }
+                Op::Quiesce => {
+                    let ok = wait_quiescent(baseline);
+                    out.push(format!("{}|-|{}", if ok { "q" } else { "TIMEOUT" }, snapshot_canon(&root, &setup.file)));
+                }
+                Op::Obstacle | Op::Unobstacle => out.push("unsupported|-|-".to_owned()),
+                Op::Append(msg, ans) => {
+                    answer.store(*ans, Ordering::SeqCst);
+                    let crash_here = *ans && crash.map_or(false, |(n, _)| n == attempts);
+                    if *ans {
+                        attempts += 1;
+                    }
+                    let res = match &appender {
+                        None => "no-appender".to_owned(),
+                        Some(a) => {
+                            let r = guarded(std::panic::AssertUnwindSafe(|| {
+                                a.append(&log::Record::builder().level(log::Level::Info).args(format_args!("{}", msg)).build())
+                            }));
+                            match r {
+                                Ok(Ok(())) => "ok".to_owned(),
+                                Ok(Err(_)) => "err".to_owned(),
+                                Err(_) => "PANIC".to_owned(),
+                            }
+                        }
+                    };
+                    if crash_here {
+                        wait_quiescent(baseline);
+                        let crashed = hook.lock().unwrap().crashed;
+                        if crashed {
+                            out.push(format!("crash|-|{}", snapshot_canon(&image, &setup.file)));
+                            drop(appender.take());
+                            let _ = std::fs::remove_dir_all(&root);
+                            root = image.clone();
+                            hook.lock().unwrap().root = root.clone();
+                            appender = start(&root, &mut out);
+                            continue;
+                        }
+                    }
+                    out.push(format!("{}|-|-", res));
+                }
+            }
+        }
+        wait_quiescent(baseline);
+        drop(appender.take());
+        out
+    });
+    log4rs::verif_hooks::set_rotate_point(None);
+    let _ = std::fs::remove_dir_all(&root);
+    let _ = std::fs::remove_dir_all(&image);
+    enc_list("/", &out)
+}
+
 // ------------------------------------------------------------------------------------------
 // generator
 // ------------------------------------------------------------------------------------------
@@ -363,6 +502,7 @@ fn enc_ops(ops: &[Op]) -> String {
             Op::Restart => "r".to_owned(),
             Op::Obstacle => "o".to_owned(),
             Op::Unobstacle => "u".to_owned(),
+            Op::Quiesce => "q".to_owned(),
         })
         .collect();
     enc_list(",", &xs)
@@ -397,6 +537,34 @@ fn emit_hist(emit: &mut dyn FnMut(String), h: &Hist, faults: &[(usize, usize)], 
             Some((a, b)) => format!("{}:{}", a, b),
         }
     ));
+}
+
+fn emit_hist_bg(emit: &mut dyn FnMut(String), h: &Hist, faults: &[(usize, usize)], crash: Option<(usize, usize)>) {
+    let mut line = String::new();
+    emit_hist(&mut |l| line = l, h, faults, crash);
+    emit(format!("{}\t@bg", line));
+}
+
+/// a history for the background-rotation build: appends (many of them rotating, so that appends
+/// and further rolls happen while a rotation thread is running), quiescence points, restarts
+fn random_hist_bg(rng: &mut Rng, max_ops: u64, mode: bool, pre: bool, count: u32) -> Hist {
+    let mut h = random_hist(rng, max_ops, mode, pre, count);
+    let mut ops = vec![];
+    for op in h.ops.into_iter() {
+        match op {
+            Op::Obstacle | Op::Unobstacle => ops.push(Op::Quiesce),
+            Op::Append(m, t) => {
+                ops.push(Op::Append(m, t || rng.chance(1, 4)));
+                if rng.chance(1, 6) {
+                    ops.push(Op::Quiesce);
+                }
+            }
+            o => ops.push(o),
+        }
+    }
+    ops.push(Op::Quiesce);
+    h.ops = ops;
+    h
 }
 
 fn attempts_of(ops: &[Op]) -> usize {
@@ -496,6 +664,45 @@ pub fn gen(rng: &mut Rng, n: usize, thorough: bool, emit: &mut dyn FnMut(String)
                     let h = Hist { mode, pre, pattern, base: 1, count, init: vec![], ops };
                     emit_hist(emit, &h, &[], None);
                 }
+            }
+        }
+    }
+    // background rotation (`@bg`, second harness build): a fixed history in every configuration
+    // and random histories, fault-free; then rotation threads that fail or die at every step
+    for mode in [true, false] {
+        for pre in [false, true] {
+            for count in 1..=4u32 {
+                let mut ops = vec![];
+                for i in 0..7 {
+                    ops.push(Op::Append(format!("<b{}>", i), i != 3));
+                }
+                ops.push(Op::Quiesce);
+                ops.push(Op::Append("<tail>".to_owned(), false));
+                ops.push(Op::Quiesce);
+                let h = Hist { mode, pre, pattern: if count % 2 == 0 { "app.log.{}" } else { "arch/app.{}.log.gz" }, base: 0, count, init: vec![], ops };
+                emit_hist_bg(emit, &h, &[], None);
+            }
+        }
+    }
+    let n_bg = if thorough { n / 6 } else { n / 5 };
+    let mut emitted_bg = 0usize;
+    while emitted_bg < n_bg {
+        let mode = rng.chance(1, 2);
+        let pre = rng.chance(1, 2);
+        let count = rng.range(1, 4) as u32;
+        let h = random_hist_bg(rng, if thorough { 24 } else { 10 }, mode, pre, count);
+        emit_hist_bg(emit, &h, &[], None);
+        emitted_bg += 1;
+        let a = attempts_of(&h.ops);
+        if a > 0 && rng.chance(1, 3) {
+            // a rotation thread fails at step k / the process dies at step boundary k
+            let n_att = rng.below(a as u64) as usize;
+            let k = rng.below(count as u64) as usize;
+            emit_hist_bg(emit, &h, &[(n_att, k)], None);
+            emitted_bg += 1;
+            if !pre {
+                emit_hist_bg(emit, &h, &[], Some((n_att, k)));
+                emitted_bg += 1;
             }
         }
     }
